@@ -1046,6 +1046,14 @@ class CSA:
             for s3, e3, k3, v3 in self.apply_closure(a[0], [r[2]], s, en):
                 outs.append((s3, en, 'v', v3 if meth == 'and_then' else (r[0], r[1], v3)))
             return outs
+        if meth == 'transpose' and r[0] == 'opt':
+            # Option<Result<T, E>> -> Result<Option<T>, E>
+            if r[1] == 'none':
+                return V(('res', 'ok', ('opt', 'none')))
+            inner = r[2]
+            if inner[0] == 'res':
+                return V(('res', 'ok', ('opt', 'some', inner[2])) if inner[1] == 'ok' else inner)
+            return V(('unk', meth))
         if meth == 'filter' and r[0] == 'opt' and a and a[0][0] == 'closure':
             # Some(x) stays when the predicate holds for x, otherwise the option is emptied
             if r[1] == 'none':
